@@ -158,9 +158,11 @@ func (e *Env) boolHelperReturns(h *ssa.Function, want bool) (alts [][]ir.NLit, o
 				}
 				continue
 			}
-			// a computed verdict: the value itself with the wanted polarity (expanded)
-			extra := ir.NormalizeAll(ff.Expand([]ir.Lit{{Cond: v, Pol: want}}))
-			alts = append(alts, append(append([]ir.NLit{}, lits...), extra...))
+			// a computed verdict: the ways the value can have the wanted polarity
+			// (short-circuit expressions expanded into a disjunction)
+			for _, conj := range ff.ExpandDNF([]ir.Lit{{Cond: v, Pol: want}}) {
+				alts = append(alts, append(append([]ir.NLit{}, lits...), ir.NormalizeAll(conj)...))
+			}
 		}
 	}
 	return alts, true
